@@ -215,6 +215,10 @@ def connectBlocks (s : Source) : List Hdr → Hdr → Cache → Nat → ConnRes
       let r := connectBlocks s rest b (cacheBlockConnected c b) (req + 1)
       { r with notifs := .connected b.hash b.height :: r.notifs }
 
+/-- mirrors lib.rs ChainNotifier::disconnect_blocks(fork_point): the listener's `blocks_disconnected(BlockLocator)` with the
+    translated locator arguments (`disconnectLocator`, Generated/ChainSync.lean) -/
+def discNotif (h : Hdr) : Notif := .disconnected (disconnectLocator h).1 (disconnectLocator h).2
+
 /-- result of synchronize_listener: `Ok(())`, `Err((_, None))`, `Err((_, Some(tip)))` -/
 inductive SyncRes where
   | ok
@@ -237,7 +241,7 @@ def synchronizeListener (s : Source) (c : Cache) (req : Nat) (new old : Hdr) : S
     let disc := syncDisconnects d.common old
     let c1 := if disc then cacheBlocksDisconnected c false d.common else c
     let r := connectBlocks s d.connected.reverse d.common c1 req1
-    let ns := (if disc then [Notif.disconnected d.common.hash d.common.height] else []) ++ r.notifs
+    let ns := (if disc then [discNotif d.common] else []) ++ r.notifs
     ⟨if r.ok then .ok else .errAt r.tip, r.cache, r.req, ns⟩
 
 /-- SpvClient state: `chain_tip` and `header_cache` -/
@@ -312,27 +316,29 @@ def findDiffFromBestBlock (s : Source) (c : Cache) (req : Nat) (best : Hdr) (l :
     | .error e => .error e
     | .ok (d, req2) => .ok ((d, c1), req2)
 
-/-- first loop of synchronize_listeners; per listener: common ancestor (none = not reached because an
-    earlier `?` returned) and its disconnect notification -/
+/-- first loop of synchronize_listeners; per listener: the heights recorded for it in `chain_listeners_at_height`
+    (none = not reached because an earlier `?` returned) and its disconnect notifications -/
 structure Phase1 where
   ok : Bool
   cache : Cache
   req : Nat
   most : List Hdr
-  per : List (Option Hdr × List Notif)
+  per : List (List Nat × List Notif)
 deriving Repr
 
+/-- first loop of synchronize_listeners: `find_difference_from_best_block(..).await?`, then the translated
+    per-listener body `initListenerStep` (Generated/ChainSync.lean: which disconnects, which height is recorded,
+    what becomes of most_connected_blocks — including any early `continue`) -/
 def phase1 (s : Source) (best : Hdr) : List Locator → Cache → Nat → List Hdr → Phase1
   | [], c, req, most => ⟨true, c, req, most, []⟩
   | l :: ls, c, req, most =>
     match findDiffFromBestBlock s c req best l with
-    | .error (_, r) => ⟨false, c, r, most, (l :: ls).map (fun _ => (none, []))⟩
+    | .error (_, r) => ⟨false, c, r, most, (l :: ls).map (fun _ => ([], []))⟩
     | .ok ((d, c1), req1) =>
+      let st := initListenerStep best l.hash l.height d.common d.connected most
       -- header_cache.retain_on_disconnect = true: blocks_disconnected leaves the cache alone
-      let disc := if initDisconnects d.common l.hash then [Notif.disconnected d.common.hash d.common.height] else []
-      let most' := if initTakesLonger d.connected most then d.connected else most
-      let r := phase1 s best ls (cacheBlocksDisconnected c1 true d.common) req1 most'
-      { r with per := (some d.common, disc) :: r.per }
+      let r := phase1 s best ls (st.disc.foldl (fun c h => cacheBlocksDisconnected c true h) c1) req1 st.most
+      { r with per := (st.recd, st.disc.map discNotif) :: r.per }
 
 -- `MAX_BLOCKS_AT_ONCE` (init.rs, `#[cfg(not(test))]` value) is generated: Generated/ChainSyncConsts.lean
 
@@ -371,8 +377,10 @@ structure InitOut where
 
 /-- mirrors init.rs synchronize_listeners (validate_best_block_header, per-listener difference and
     disconnect, then batched connects). Per listener the notifications are its disconnect (if any)
-    followed by the delivered blocks above its common ancestor, in ascending order — the real code
-    interleaves listeners batch by batch, which leaves each listener's own sequence unchanged. -/
+    followed by the delivered blocks above the height recorded for it in the first loop, in ascending order —
+    the real code interleaves listeners batch by batch, which leaves each listener's own sequence unchanged
+    (a listener recorded twice would get the batches interleaved; the clean code records exactly one height,
+    `initListenerStep_eq`). -/
 def synchronizeListeners (s : Source) (ls : List Locator) : InitOut :=
   let empties := ls.map (fun _ => ([] : List Notif))
   match s.getBestBlock 0 with
@@ -386,9 +394,7 @@ def synchronizeListeners (s : Source) (ls : List Locator) : InitOut :=
       else
         let asc := p1.most.reverse
         let (ok, c, r, delivered) := phase2 s MAX_BLOCKS_AT_ONCE asc.length asc p1.cache p1.req
-        let ns := p1.per.map (fun p => p.2 ++ match p.1 with
-          | some h => connectedFor h.height delivered
-          | none => [])
+        let ns := p1.per.map (fun p => p.2 ++ p.1.flatMap (fun lh => connectedFor lh delivered))
         if ok then ⟨.ok (best, c), ns, r⟩ else ⟨.error .source, ns, r⟩
 
 /-! ### an arbitrary (adversarial) source seen through the Validate layer -/
